@@ -21,6 +21,8 @@ vars == <<gen, ws, tail, tags, lens, muts, last>>
 
 Vals == [k \in 1..Len(tags) |-> ValueOf(k, lens[k])]
 
+\* a word that is NOT a tag but differs from one in a single byte: "PAD\x00" (4473168 = 0x00444150); PAD is "PAD\xff"
+NearPad == <<4473168, 0>>
 \* header-shaped generator: count word nt in {3, 4}, then nt-1 offsets, nt tags, up to 4 value words
 OffAlphabet3 == { <<0, 0>>, <<1, 0>>, <<2, 0>>, <<3, 0>>, <<4, 0>>, <<5, 0>>, <<8, 0>>, <<12, 0>>, <<16, 0>>,
                   <<20, 0>>, <<Big, 0>>, <<Big + 3, 0>> }
@@ -29,7 +31,7 @@ HdrAlphabet ==
     IF ws = <<>> THEN { <<3, 0>>, <<4, 0>> }
     ELSE LET nt == V(ws[1]) pos == Len(ws) + 1 IN
          IF pos <= nt THEN (IF nt = 3 THEN OffAlphabet3 ELSE OffAlphabet4)
-         ELSE IF pos <= 2 * nt THEN (IF nt = 3 THEN { StdTagW(1), StdTagW(4), StdTagW(18) } ELSE { StdTagW(pos - nt) })
+         ELSE IF pos <= 2 * nt THEN (IF nt = 3 THEN { StdTagW(1), StdTagW(4), StdTagW(18), NearPad } ELSE { StdTagW(pos - nt) })
          ELSE IF pos <= 2 * nt + 4 THEN { <<0, 0>> } ELSE {}
 
 Init == /\ gen \in {"raw", "build", "hdr"}
